@@ -342,6 +342,13 @@ func (w *World) classifyGlobals(p *ssa.Package) {
 				_ = c
 				kind = "const"
 			}
+			if sl, ok := v.(*ssa.Slice); ok && sl.Low == nil && sl.High == nil {
+				if al, ok := sl.X.(*ssa.Alloc); ok {
+					if arr, ok := al.Type().Underlying().(*types.Pointer).Elem().Underlying().(*types.Array); ok {
+						kind = fmt.Sprintf("slice:%d", arr.Len())
+					}
+				}
+			}
 		}
 		w.immGlobal[g] = kind
 	}
